@@ -220,12 +220,52 @@ func (r *rewriter) swapImport(from, to, name string) {
 	}
 }
 
+// osProcessTypes: src/command sees the simulated os/exec, whose Cmd carries simulated
+// Process / ProcessState values; a mention of the real types os.Process / os.ProcessState
+// (a helper that takes the state as a parameter) is pointed at the facade's types.
+func (r *rewriter) osProcessTypes() {
+	need := false
+	ast.Inspect(r.file, func(n ast.Node) bool {
+		se, ok := n.(*ast.SelectorExpr)
+		if !ok {
+			return true
+		}
+		id, ok := se.X.(*ast.Ident)
+		if !ok || id.Name != "os" || (se.Sel.Name != "ProcessState" && se.Sel.Name != "Process") {
+			return true
+		}
+		if pn, ok := r.pkg.TypesInfo.Uses[id].(*types.PkgName); !ok || pn.Imported().Path() != "os" {
+			return true
+		}
+		se.X = ast.NewIdent("exec")
+		need = true
+		return true
+	})
+	if !need {
+		return
+	}
+	r.changed = true
+	has := false
+	for _, im := range r.file.Imports {
+		if p, _ := strconv.Unquote(im.Path.Value); p == "verifrt/simos" {
+			has = true
+		}
+	}
+	if !has {
+		astutil.AddNamedImport(r.pkg.Fset, r.file, "exec", "verifrt/simos")
+	}
+	if !astutil.UsesImport(r.file, "os") {
+		astutil.DeleteImport(r.pkg.Fset, r.file, "os")
+	}
+}
+
 func (r *rewriter) run() {
 	switch r.mode {
 	case modeCommand:
 		r.swapImport("os/exec", "verifrt/simos", "exec")
 		r.swapImport("syscall", "verifrt/simsys", "syscall")
 		r.swapImport("github.com/creack/pty", "verifrt/simpty", "pty")
+		r.osProcessTypes()
 		return
 	case modeMapOnly:
 		r.swapImport("os/exec", "verifrt/simos", "exec")
